@@ -88,7 +88,9 @@ class C11(Prop):
                   "through C10's image theorem (every error-free text is the rendering of a liberal layout) and the liberal live layouts of model/RelLiveAll.v (the inside of a relation's parts is "
                   "opaque to the edits); the single-step / history / re-read / handle theorems of that development are C11_all_*; one correction of the statement (not of the code): "
                   "operand records with architectures or profiles but no qualifier are built with RelationBuilder (C11_builder_operand_witness). "
-                  "NOT PROVED (stream + oracle): parsed operands on liberal layouts (proved for Policy-shaped fields), operations through handles into an operand or to a node that has left the field.")
+                  "(6) The same with operands obtained by PARSING (Entry::from_str / Relation::from_str of ANY text they accept — C11_all_parsed_cover_* — whose accessors do not panic), "
+                  "mixed with built ones: C11_all_mixed_step/_history/_full, and in the handle theorems C11_all_handles_* (a register may hold a handle INTO a parsed tree). "
+                  "NOT PROVED (stream + oracle): operations through handles into an operand or to a node that has left the field.")
     level_note = ("Model: coq/model/RelEdit.v — the editing API of debian-control/src/lossless/relations.rs over a store of trees and "
                   "re-based handles (rowan 0.16.1 red layer as the code experiences it).")
     rule = ("rel-edit: the repo's own editing tests and one case per known defect; every history of length <= 2 (thorough 3 on fewer seeds) over 62 "
